@@ -484,6 +484,13 @@ impl Engine for C07 {
                 // (documents with state to leak - templates, random draws, accumulators - stay
                 // as frequent as they were before the other families were added)
                 17 | 18 | 19 => Doc::from_str(&docgen::stateful_doc(&mut w)),
+                // bytes which are not UTF-8 (only the stream functions and the command can be
+                // given them; they must agree on what to make of them)
+                20 => Doc(match w.below(3) {
+                    0 => b"<svg><rect wh=\"3\" text=\"caf\xe9\"/></svg>".to_vec(),
+                    1 => b"<svg><text xy=\"0 0\">a\xe2\x82</text></svg>".to_vec(),
+                    _ => b"<svg><!-- \xff\xfe --><rect wh=\"2\"/></svg>".to_vec(),
+                }),
                 0 | 1 => Doc::from_str(&docgen::failing_doc(&mut w).0),
                 13 => Doc::from_str(&docgen::crlf_doc(&mut w)),
                 14 => Doc::from_str(&docgen::limit_hitting_doc(&mut w)),
